@@ -433,7 +433,8 @@ class AudioThread(threading.Thread):
     try:
       for chunk in chunks(self.audio,
                           size=self.chunk_size*self.nchannels,
-                          dfmt=self.dfmt):
+                          dfmt=self.dfmt,
+                          padval=0. if self.dfmt in "fd" else 0):
         #Below is a faster way to call:
         #  self.stream.write(chunk, self.chunk_size)
         self.write_stream(st, chunk, self.chunk_size, False)
